@@ -358,3 +358,11 @@ for meth, arg in (('load_string', 'input_string'), ('load_file', 'file_name')):
         c.ensures('accepted-text-yields-the-compiled-program', '_accepted ==> self._program is _prog and result is _prog')
         c.ensures('rejected-text-leaves-nothing-to-run', 'not _accepted ==> (self._program is None or len(self._program) == 0) and result is self._program')
         c.ensures('compiles-exactly-this-text-once', "len(ghost('parser_calls')) == 1 and ghost('parser_calls')[0][1] is %s" % arg)
+
+
+# ---- thin dispatch methods: each hands over to its sub-parser and passes its verdict on
+for meth, first, tag in (('_print', 'PRINT', 'command'), ('_println', 'PRINTLN', 'command'), ('_printf', 'PRINTF', 'printf')):
+    c = method(meth, first, serves=('C06', 'C19'))
+    c.name += ' (dispatch)'
+    if meth == '_printf':
+        c.ensures('one-printf-phrase', "result is True ==> len(emitted(self)) == 1 and is_seg(emitted(self)[0], 'printf')")
